@@ -474,7 +474,11 @@ def normalize(x):
 
 def not_fail(case, impl, judge):
     # int overflow on out-of-range numbers is C05/C15's finding, not a layout question
-    return impl.startswith("crash") and "signed integer overflow" in impl
+    if impl.startswith("crash") and "signed integer overflow" in impl:
+        return True
+    # a tie / slur behind a tie that stood behind another event (D24: add_tie keeps no record of the whole
+    # extended note) is C05's known finding sep_tie_on_time, the same in every layout: not a layout question
+    return judge.startswith("fail") and ": fail sep_tie_on_time " in judge
 
 
 def finding_key(case, impl, judge):
